@@ -92,3 +92,13 @@ Definition acceptsb (env : envx) (q : reqx) (g : gate) : bool :=
 Definition identity_okb (env : envx) (q : reqx) (m : mask) (u : N) : bool :=
   existsb (fun ul => (fst ul =? u) && gate_conclusion (e_now env) (e_deny env) (mask_val (e_webui env) m) q (fst ul) (snd ul))
           (candidates q).
+
+(* the conclusion of c06_login_mints_password_only on an observed Set-Cookie of the login route: the session
+   names the user of the login credential, that credential is a verified password, and the level is the
+   password level exactly - whatever auth_cookie / client certificate the request carries besides *)
+Definition login_conclusion (lq : loginq) (u l : N) : bool :=
+  (l =? bPassword) &&
+  match login_credential lq with
+  | Some b => b_ok b && (u =? b_user b)
+  | None => false
+  end.
